@@ -2,7 +2,7 @@
 from . import servefam
 from .c03 import TRUSTED
 
-THEOREMS = ["Goag.Serve.serve_exactly_one_response", "Goag.Serve.secured_one_final", "Goag.Serve.opHandler_one_final"]
+THEOREMS = ["Goag.Serve.serve_exactly_one_response", "Goag.Serve.secured_one_final", "Goag.Serve.opHandler_one_final", "Goag.Serve.runProgC_eq", "Goag.Serve.runProgC_never_panics", "Goag.Serve.stripBaseC_safe", "Goag.Serve.splitPathC_safe", "Goag.Serve.splitPathC_parts"]
 FACETS = [("route", [], "route")]
 RULE = "same corpus as C03 (random well-formed template sets x methods x base forms x typed path parameters x cors x single-scheme security; enumerated + template-directed + near-miss request paths, random handler/middleware/authenticator configuration); non-trivial = not answered by the plain not-found path; distinct by (package, method, path, projected observation)"
 
@@ -70,5 +70,5 @@ def scan_request_bodies(ctx):
 def check(ctx):
     scan_body_decoding(ctx)
     scan_request_bodies(ctx)
-    return servefam.check_prop(ctx, "C14", ["GoagModel.Props.C14"], THEOREMS, FACETS, TRUSTED, rule=RULE,
+    return servefam.check_prop(ctx, "C14", ["GoagModel.Props.C14", "GoagModel.Props.C14b"], THEOREMS, FACETS, TRUSTED, rule=RULE,
                                explanation=EXPLANATION, assumptions=ASSUMPTIONS, level="exploration")
